@@ -488,6 +488,14 @@ def _accumulate_loops(tree):
                             and not any(isinstance(n, (ast.Yield, ast.YieldFrom, ast.Await, ast.NamedExpr)) for n in ast.walk(body[0])):
                         lead.append(body[0])
                         body = body[1:]
+                    # a call is never duplicated: a lead value that contains one is substituted only when the name is read once afterwards
+                    for k_, a in enumerate(lead):
+                        if any(isinstance(n, ast.Call) for n in ast.walk(a.value)):
+                            reads_ = sum(1 for part in [l_.value for l_ in lead[k_ + 1:]] + body for n in ast.walk(part)
+                                         if isinstance(n, ast.Name) and n.id == a.targets[0].id and isinstance(n.ctx, ast.Load))
+                            if reads_ > 1:
+                                lead, body = [], [ast.Pass(), ast.Pass(), ast.Pass()]  # leave the loop alone
+                                break
                     if lead:
                         body = copy.deepcopy(body)
                         for _ in range(len(lead)):
